@@ -278,8 +278,23 @@ def check(run: Run) -> None:
                                 f"resulting order depends on pointer hashing, not on the dataflow", loc=fa.loc(l))
         run.sites(n, 6, "loops in build_ranked_graph")
 
+    with run.obligation("C06.e", "K2/K3+K7", "the rank pass makes evaluation order a function of the dependencies alone: Kahn template with paired "
+                        "in-degree/consumer updates, every edge-producing source kind ranked (shared with C01.a, C01.b)"):
+        from . import c01
+        sub = Run("C06", run.tier, run.tree, quiet=True)
+        c01.check(sub)
+        run.evaluations += sub.evaluations
+        run.count(1, "C06.e")
+        for f in sub.findings:
+            if f.rule in ("C01.a", "C01.b"):
+                run.finding("C06.e", f.key, f.message, f.loc)
+        for e in sub.errors:
+            if e.startswith(("C01.a", "C01.b")):
+                raise AnalysisError("model-mismatch", e)
+
 
 VARIANTS = [
+    {"id": "e-dedup-indegree-only", "expect": "C06.e", "edits": [{"file": WIRING, "find": "        ++indegree[instance];\n        consumers[producer].push_back(instance);\n      }\n    }\n    for (const WiringInstance *producer : instance->rank_dependencies) {", "replace": "        auto &dependants = consumers[producer];\n        if (dependants.empty() || dependants.back() != instance) {\n          ++indegree[instance];\n        }\n        dependants.push_back(instance);\n      }\n    }\n    for (const WiringInstance *producer : instance->rank_dependencies) {"}]},
     {"id": "a-eq-ignores-scalars", "expect": "C06.a", "edits": [{"file": WIRING, "find": "    if (scalars.has_value() != other.scalars.has_value()) {\n      return false;\n    }\n    if (!scalars.has_value()) {\n      return true;\n    }\n    return scalars.equals(other.scalars);", "replace": "    return true;"}]},
     {"id": "a-inputkey-custom-eq", "expect": "C06.a", "edits": [{"file": WIRING, "find": "  bool passive{false};\n\n  bool operator==(const InputKey &) const noexcept = default;", "replace": "  bool passive{false};\n\n  bool operator==(const InputKey &other) const noexcept { return source == other.source && target_path == other.target_path; }"}]},
     {"id": "a-make-key-drops-path", "expect": "C06.a", "edits": [{"file": WIRING, "find": "        .target_path = input.target_path.empty()\n                           ? std::vector<std::size_t>{index}\n                           : input.target_path,\n", "replace": ""}]},
